@@ -202,6 +202,19 @@ class ASTRewriter(ast.NodeTransformer):
 
             elts = tup.elts
 
+            # The elements of a named tuple are read from the name: the expressions it
+            # was built from may have changed value since
+            if isinstance(node.value, ast.Name) and not all(
+                isinstance(e, ast.Constant) for e in elts
+            ):
+                elts = [
+                    ast.Subscript(
+                        value=ast.Name(id=node.value.id, ctx=ast.Load()),
+                        slice=ast.Constant(value=i),
+                    )
+                    for i in range(len(elts))
+                ]
+
             ifex = elts[0]
 
             for i, x in enumerate(elts[1:]):
